@@ -18,7 +18,7 @@ timestamp > last); every timestamp handed to a Record constructor in the store c
 get_timestamp / VersionClock::next or is an API parameter; recovery folds in every scanned timestamp before the
 winner/loser decision. Not decided: numeric monotonicity over histories; clock-shard collisions.
 """
-DECIDED = ["every clock draw / observation uses the operation's own key (shard key provenance)", 'u64::MAX is never installed into a clock shard', "clock fed only on published writes, under the guard, after the gate", "next() = max(wall, last+1) via CAS, returns the installed value",
+DECIDED = ['the key -> clock-shard map is a pure function of the key bytes and the clock hasher (no thread / time / other state)', "every clock draw / observation uses the operation's own key (shard key provenance)", 'u64::MAX is never installed into a clock shard', "clock fed only on published writes, under the guard, after the gate", "next() = max(wall, last+1) via CAS, returns the installed value",
            "observe() only raises", "all automatic timestamps come from the clock", "recovery folds every scanned timestamp",
            'every Record constructor stores its timestamp parameter',
            'observe retries a lost compare-exchange']
@@ -320,6 +320,31 @@ def check_shard_key(ctx, inst="C12.shard-key"):
                 what = "the clock is drawn from / fed for the key the operation works on (same provenance as the hash-table / keyed-helper key)"
             ctx.check(good, inst, "PROVENANCE", owner, what, b.where(n.id), {"key_arg": e.show()[:100], "origins": sorted(map(str, k))[:6]})
     ctx.check(n_sites >= 20, inst, "anchor", "-", "clock call sites examined (>= 20, found %d)" % n_sites, None)
+    # (added after C12-i) the key -> shard map itself is a pure function of the key bytes (and the clock's own hasher): a shard
+    # choice that also depends on the calling thread, the time or any other state sends `observe` on one thread and `next` on
+    # another to different counters for the same key
+    ALLOWED = ("RandomState::hash_one", "BuildHasher::hash_one", "VersionClock::shard_index", "Deref::deref", "Index::index", "Vec::len", "slice::len",
+               "Ord::min", "Ord::max", "cmp::min", "cmp::max", "slice::get", "slice::first", "slice::last", "slice::split_at", "SliceIndex::index", "slice::index")    # pure
+    n_pure = 0
+    for fn in ("VersionClock::shard_index", "VersionClock::shard"):
+        b = ctx.fn(fn, inst)
+        if b is None:
+            continue
+        for n in b.calls():
+            nm = R.callee_name(n.ev) if hasattr(R, "callee_name") else None
+            ok = any(R.call_matches(n.ev, a) for a in ALLOWED)
+            ctx.check(ok, inst, "FORBID", b.path, "the shard of a key is computed from the key and the clock's hasher only (no thread, time or other state)", b.where(n.id))
+            if R.call_matches(n.ev, "hash_one") or R.call_matches(n.ev, "VersionClock::shard_index"):
+                k = R.arg_expr(b, n, 1)
+                leaves = [x for x in k.walk() if not x.a]
+                ctx.check(any(x.k == "arg" and x.extra[0] == 2 for x in leaves) and all((x.k == "arg" and x.extra[0] == 2) or x.k == "const" for x in leaves),
+                          inst, "PROVENANCE", b.path, "what is hashed / looked up is computed from the key parameter (and constants) only", b.where(n.id), {"hashed": k.show()[:100]})
+                r0 = R.arg_expr(b, n, 0)
+                ctx.check(all(x.k != "arg" or x.extra[0] == 1 for x in r0.walk()) and not r0.calls(), inst, "PROVENANCE", b.path, "with the clock's own hasher", b.where(n.id))
+                n_pure += 1
+        loads = [n.id for n in b.calls() if R.call_matches(n.ev, "Atomic::load") or R.call_matches(n.ev, "thread::current") or R.call_matches(n.ev, "SystemTime::now")]
+        ctx.check(not loads, inst, "FORBID", b.path, "no ambient state is read while choosing the shard", b.where(loads[0]) if loads else None)
+    ctx.check(n_pure >= 2, inst, "anchor", "-", "shard_index hashes the key, shard forwards it (found %d)" % n_pure, None)
 
 
 def check(ctx):
